@@ -79,3 +79,49 @@ Example ex_checker_rejects :
   inv_check (damage_clk ex_g0) = false /\ inv_check (damage_grp ex_g0) = false /\
   inv_check (damage_dangling ex_g0) = false /\ inv_check (damage_type ex_g0) = false.
 Proof. vm_compute. repeat split; reflexivity. Qed.
+
+(* ---- clause (vii): logic drivers of a clock; replacing a reset driver twice ---- *)
+From Gatery Require Import WfDrivers.
+
+Definition ex_drv_ops : list op :=
+  [ OCreateDriver true (Some 0%N);  OSetDriver true 0 5;      (* overrideClkWith *)
+    OCreateDriver false (Some 0%N); OSetDriver false 0 6;     (* overrideRstWith *)
+    OCreateDriver false (Some 1%N); OSetDriver false 0 7;     (* overrideRstWith again: 6 is un-bound, 7 bound *)
+    OSetDriver false 0 7;                                     (* re-binding the current driver *)
+    ODestroy 6 ].                                             (* the un-bound old driver may be culled *)
+
+Example ex_drv_wf : wfd_check (run ex_g0 ex_drv_ops) = true.
+Proof. vm_compute. reflexivity. Qed.
+
+Example ex_drv_state :
+  let g := run ex_g0 ex_drv_ops in
+  clkdrv g 0 = Some 5%N /\ rstdrv g 0 = Some 7%N /\ clk_of g (5%N, 0) = Some 0%N /\ clk_of g (7%N, 0) = Some 0%N /\
+  getn g 6 = None /\ clocked g 0 = [(4%N, 0); (5%N, 0); (7%N, 0)].
+Proof. vm_compute. repeat split; reflexivity. Qed.
+
+Example ex_drv_pre_hold :
+  forallb (fun k => op_pre (run ex_g0 (firstn k ex_drv_ops)) (nth k ex_drv_ops OCreateClock)) (seq 0 8) = true.
+Proof. vm_compute. reflexivity. Qed.
+
+(* refused: destroying a bound driver, attaching the clock port of a driver node by hand, binding a node of the wrong class,
+   binding a node that already drives another clock *)
+Example ex_drv_refused :
+  let g := run ex_g0 (firstn 6 ex_drv_ops) in
+  op_pre g (ODestroy 5) = false /\ op_pre g (ODestroy 6) = true /\ op_pre g (ODetachClock (7%N, 0)) = false /\
+  op_pre g (OSetDriver true 0 7) = false /\
+  op_pre (run g [OCreateClock]) (OSetDriver false 1 7) = false.
+Proof. vm_compute. repeat split; reflexivity. Qed.
+
+(* the half-renamed copy of setLogicClockDriver: un-binds the CLOCK driver when a reset driver is replaced *)
+Definition buggy_setLogicResetDriver (g : graph) (c n : N) : graph :=
+  let g1 := match clkdrv g c with Some old => attachClock g (old, 0) None | None => g end in
+  attachClock (set_drv g1 c false (Some n)) (n, 0) (Some c).
+
+Example ex_drv_buggy_rejected :
+  let g := run ex_g0 (firstn 5 ex_drv_ops) in          (* clock driver 5, reset driver 6, fresh node 7 *)
+  invd_check (setLogicDriver false g 0 7) = true /\
+  invd_check (buggy_setLogicResetDriver g 0 7) = false /\
+  inv_check (buggy_setLogicResetDriver g 0 7) = true /\
+  clkdrv (buggy_setLogicResetDriver g 0 7) 0 = Some 5%N /\ clk_of (buggy_setLogicResetDriver g 0 7) (5%N, 0) = None /\
+  clk_of (buggy_setLogicResetDriver g 0 7) (6%N, 0) = Some 0%N.
+Proof. vm_compute. repeat split; reflexivity. Qed.
